@@ -41,6 +41,15 @@ def make_case(ctype):
             # a recording set's top-level `recordings` list is at once the collection's content and the document's definition list:
             # a set listing one recording twice cannot be both faithful (C01) and free of duplicate ids, so it is outside C02's domain
             spec["top"]["recordings"] = list(dict.fromkeys(spec["top"]["recordings"]))
+        if len(spec["tags"]) >= 2 and draw(st.integers(0, 2)) == 0:
+            # two tags of full vocabulary terms that share the term NAME but not the label (a project's own label for dwc:scientificName
+            # next to the standard one), or the label but not the name, with one value: a tag is written as (label, value)
+            i, j = draw(st.permutations(list(range(len(spec["tags"])))))[:2]
+            v = spec["tags"][i][1]
+            if draw(st.booleans()):
+                spec["tags"][i], spec["tags"][j] = [["dwc:scientificName", "Scientific Taxon Name"], v], [["dwc:scientificName", "Species"], v]
+            else:
+                spec["tags"][i], spec["tags"][j] = [["dwc:scientificName", "Taxon"], v], [["proj:taxon", "Taxon"], v]
         if ctype == "annotation_project":
             spec["post_append"] = draw(st.integers(0, 3)) == 0
         if ctype == "evaluation":
